@@ -127,6 +127,34 @@ let run_case (toks : string list) (obs : (string, string list) Hashtbl.t) : stri
                  end else List.rev acc
              | _ -> List.rev acc in
            let ends = frame_ends stream 0 [] 64 in
+           (* the first frame whose length prefix is complete but zero, negative, not an integer, outside int32 or above
+              the maximum: the connection must stop there with an error, before any payload byte is consumed *)
+           let rec drop n l = if n = 0 then l else match l with [] -> [] | _ :: t -> drop (n - 1) t in
+           let bad_prefix : (int * int) option =
+             let idx = List.length ends in
+             let pos = (match List.rev ends with [] -> 0 | e :: _ -> e) in
+             let s = drop pos stream in
+             if s = [] then None else
+             match dec_int32 s with
+             | I32 (l, r) ->
+                 let lz = z_of_coq l in
+                 if ZZ.leq lz ZZ.zero || ZZ.gt lz (z_of_coq max) then Some (idx, pos + (List.length s - List.length r)) else None
+             | I32Bad _ -> Some (idx, pos + 1)
+             | I32Overflow -> (match dec_int64 s with DOk (_, r) -> Some (idx, pos + (List.length s - List.length r)) | _ -> None)
+             | I32Short -> None in
+           let prefix_problem =
+             match bad_prefix with
+             | Some (idx, limit) when idx < List.length iouts ->
+                 let o = List.nth iouts idx and c = List.nth icons idx in
+                 if not (String.length o >= 4 && String.sub o 0 4 = "err:") then
+                   Some (Printf.sprintf "frame#%d has an invalid length prefix but was delivered as %s" idx o)
+                 else if c > limit then
+                   Some (Printf.sprintf "frame#%d has an invalid length prefix ending at byte %d but %d bytes were consumed" idx limit c)
+                 else None
+             | _ -> None in
+           (match prefix_problem with
+            | Some why -> Printf.sprintf "PROPFAIL %s sig=bad-prefix-not-fatal %s" id why
+            | None ->
            let cons_bad = ref None in
            List.iteri (fun i e ->
              if !cons_bad = None && i < List.length icons && List.nth icons i <> e then cons_bad := Some (i, e, List.nth icons i)) ends;
@@ -160,5 +188,5 @@ let run_case (toks : string list) (obs : (string, string list) Hashtbl.t) : stri
                       if expect <> "" && expect <> String.concat "|" mouts then
                         Printf.sprintf "MISMATCH %s generator-expectation model=%s expected=%s" id (String.concat "|" mouts) expect
                       else Printf.sprintf "AGREE %s %s" id (if kv "nt" k = "1" then "nontrivial" else "trivial"))
-           end)))
+           end))))
   | _ -> "SKIP"
